@@ -256,7 +256,7 @@ func (x *Xfer) Finish() {
 	r.Res.Progress = x.Progress()
 	if r.Res.Completed {
 		for _, ep := range x.W.Eps {
-			if ep.In != nil && ep.In.Read != ep.In.Target && ep.ReadErr == nil {
+			if ep.In != nil && ep.In.Read != ep.In.Target && ep.ReadErr == nil && s.CapHit == "" {
 				s.Fail("C01", "stream", "incomplete", "%s: transfer finished with %d of %d bytes read", ep.Name, ep.In.Read, ep.In.Target)
 			}
 			if ep.Out != nil && !ep.Out.NoCheck && ep.WriteErr == nil && ep.Peer != nil && ep.Peer.In.Read >= ep.Out.Written && ep.Out.WirePos != ep.Out.Written {
@@ -373,6 +373,11 @@ func (x *Xfer) sessBudget() time.Duration {
 			maxXmit = st.MaxXmit
 		}
 		segs += st.SndQueue + st.SndBuf + st.RcvQueue + st.RcvBuf
+		if ep.Writer != nil && ep.Writer.Busy() {
+			// a Write that is blocked on the window has queued nothing (message mode)
+			// or only part (stream mode) of its bytes yet
+			segs += int(ep.Out.Offered-ep.Out.Written)/max(1, ep.mss()) + 2
+		}
 		if int(st.Interval) > ivl {
 			ivl = int(st.Interval)
 		}
@@ -402,6 +407,7 @@ func (x *Xfer) RunHeal() {
 					ep.WriterDone = true
 				}
 				ep.Out.Target = ep.Out.Offered
+				ep.DrainFast = true
 			}
 		}
 		stopWriters()
@@ -532,6 +538,7 @@ func (x *Xfer) RunStall(began *bool, stallUntil, lossFrom, lossTo *time.Duration
 		for _, ep := range w.Eps {
 			ep.WriterDone = true
 			ep.Out.Target = ep.Out.Offered
+			ep.DrainFast = true
 		}
 		budget := x.sessBudget()
 		deadline := s.Now() + budget
@@ -559,8 +566,10 @@ func (x *Xfer) RunStall(began *bool, stallUntil, lossFrom, lossTo *time.Duration
 	if *began {
 		s.Stats.Probe("stall-completed")
 	}
-	for _, ep := range w.Eps {
-		ep.ReaderDone, ep.WriterDone = true, true
+	if s.CapHit == "" {
+		for _, ep := range w.Eps {
+			ep.ReaderDone, ep.WriterDone = true, true
+		}
 	}
 	x.Finish()
 }
